@@ -191,7 +191,12 @@ class CContext:
             # Calculate bit size:
             if field.bitsize:
                 bitsize = self.eval_expr(field.bitsize)
-                alignment = 1  # Bitfields are 1 bit aligned
+                if bitsize == 0:
+                    # An unnamed bit-field of width 0: the next member
+                    # starts at a boundary of the type of this field.
+                    alignment = self.alignment(field.typ) * 8
+                else:
+                    alignment = 1  # Bitfields are 1 bit aligned
             else:
                 bitsize = self.sizeof(field.typ) * 8
                 alignment = self.alignment(field.typ) * 8
@@ -202,7 +207,7 @@ class CContext:
             # We are now at the position of this field
             bit_offsets[field] = bit_offset
 
-            if field.name is None:
+            if field.name is None and not field.is_bitfield:
                 # If the field is anonymous,
                 # fill the offsets of named subfields:
                 assert field.typ.is_struct_or_union
